@@ -404,9 +404,9 @@ func main() {
 		{"glob-off-two-keys", []def{{"foo.com:80", "/"}, {"foo.com", "/a"}}, request{"foo.com", false, "/x"}, 0, true},
 		{"glob-path", []def{{"foo.com", "/foo/*"}, {"foo.com", "/*/bar"}, {"foo.com", "/"}}, request{"foo.com", false, "/foo/bar"}, 2, false},
 		{"upper-case-route-host", []def{{"FOO.com", "/"}, {"*.COM", "/"}}, request{"foo.COM", false, "/x"}, 0, false},
-		// the known defects, in their pure form
-		{"F1-upper-host-glob-off", []def{{"foo.com", "/"}}, request{"FOO.com", false, "/"}, 0, true},
-		{"F1-upper-host-glob-off", []def{{"foo.com", "/"}, {"", "/"}}, request{"Foo.com", false, "/"}, 0, true},
+		// upper-case Host with glob matching disabled (F-C03-1, repaired by 3f5e3c8) and the open defects, in their pure form
+		{"upper-host-glob-off-fixed-3f5e3c8", []def{{"foo.com", "/"}}, request{"FOO.com", false, "/"}, 0, true},
+		{"upper-host-glob-off-fixed-3f5e3c8", []def{{"foo.com", "/"}, {"", "/"}}, request{"Foo.com", false, "/"}, 0, true},
 		{"F2-iprefix-shorter-first", []def{{"", "/fo"}, {"", "/Foo"}}, request{"foo.com", false, "/foo/bar"}, 1, false},
 		{"F3-qmark-before-exact", []def{{"?.foo.com", "/"}, {"1.foo.com", "/"}}, request{"1.foo.com", false, "/"}, 0, false},
 		{"F4-empty-star-before-exact", []def{{"*foo.com", "/"}, {"foo.com", "/"}}, request{"foo.com", false, "/"}, 0, false},
